@@ -117,8 +117,14 @@ impl<'l> CelCompiler<'l> {
 
     fn parse_expression_nested(&mut self) -> CelResult<(CompiledProg, AstNode<Expr>)> {
         if let Some(Token::Match) = self.tokenizer.peek()?.as_token() {
-            self.tokenizer.next()?;
-            self.parse_match_expression()
+            // the span of a match expression starts at its keyword
+            let match_loc = match self.tokenizer.next()? {
+                Some(token) => token.loc,
+                None => SourceRange::new(self.tokenizer.location(), self.tokenizer.location()),
+            };
+            let (prog, ast) = self.parse_match_expression()?;
+            let (node, range) = ast.into_parts();
+            Ok((prog, AstNode::new(node, match_loc.surrounding(range))))
         } else {
             let (lhs_node, lhs_ast) = self.parse_conditional_or()?;
 
